@@ -288,8 +288,12 @@ func (c *Ctx) Finish() int {
 		}
 		return 0
 	}
-	_ = os.MkdirAll(filepath.Join(Root, "evidence"), 0o755)
-	if err := os.WriteFile(filepath.Join(Root, "evidence", c.ID+".json"), append(b, '\n'), 0o644); err != nil {
+	evDir := filepath.Join(Root, "evidence")
+	if d := os.Getenv("VERIF_EVIDENCE_DIR"); d != "" {
+		evDir = d // runs against a scratch copy of the repository (seeded changes) must not touch the real evidence
+	}
+	_ = os.MkdirAll(evDir, 0o755)
+	if err := os.WriteFile(filepath.Join(evDir, c.ID+".json"), append(b, '\n'), 0o644); err != nil {
 		fmt.Printf("BROKEN: cannot write evidence: %v\n", err)
 		return 2
 	}
